@@ -12,6 +12,10 @@ func propC12(c *Ctx, r *Report) {
 		"E4 clone freshness: every container (slice / pointer / map, at every access path from the module root) that the code working on a module clone writes through - ir.ProcessOverrides on ir.CloneModuleForOverrides (glsl.Compile with PipelineConstants), the MSL pipeline-constant pass on its own copy, the DXIL inline+sroa+mem2reg+dce pipeline on its clone - is re-allocated by the clone function, so no backend writes into the module it was given")
 	r.Clauses = append(r.Clauses,
 		"E6 map order: every `range` over a Go map in library code has an order-insensitive body (set/map inserts, flags, counters, min/max, appends that are sorted before use, existence checks) or a written argument why the order cannot reach the output")
+	r.Clauses = append(r.Clauses, "read-only package state (E27): no library function other than init assigns a package-level variable (or an element / field of one), deletes from or clears one, takes its address or calls a pointer-receiver method on it; the library uses no sync primitives - so the keyword / builtin / format tables are immutable after initialisation and concurrent compilations share no mutable state")
+	c.runGlobalsNoWrite(r, "globals.nowrite")
+	r.floor("globals.tables", 20)
+	r.floor("globals.functions", 3000)
 	c.runMapOrder(r, "maporder", "mapranges", nil, mapOrderExceptions)
 	r.floor("mapranges", 60)
 	for _, sp := range cloneSpecs {
